@@ -130,8 +130,11 @@ func dischargeAll(frs []*FuncResult, dir string, timeoutS, par int, filter func(
 			script := j.fr.Enc.script(j.o)
 			base := fmt.Sprintf("o%04d", j.id)
 			to := timeoutS
-			if j.o.Cover && to > 3 {
-				to = 3
+			if j.o.Cover {
+				// vacuity: the quantifier-free part of the assumptions must be satisfiable (cheap, decisive when unsat);
+				// the full query is only attempted briefly
+				to = 2
+				script = relaxScript(script)
 			}
 			out := solveScript(script, dir, base, to)
 			j.o.Result = out.result
@@ -143,7 +146,29 @@ func dischargeAll(frs []*FuncResult, dir string, timeoutS, par int, filter func(
 			if out.result == "sat" && !j.o.Cover {
 				j.o.Model = getModel(script, dir, base, timeoutS, out.backend)
 			}
+			if (out.result == "timeout" || out.result == "unknown") && !j.o.Cover {
+				// model search on the quantifier-free relaxation (a candidate input only: believed only if the replay confirms it)
+				relaxed := relaxScript(script)
+				r2 := solveScript(relaxed, dir, base+"r", 5)
+				if r2.result == "sat" {
+					j.o.Relaxed = relaxed
+					j.o.RelaxedBackend = r2.backend
+					j.o.Model = "candidate model from the quantifier-free relaxation:\n" + getModel(relaxed, dir, base+"r", 5, r2.backend)
+				}
+			}
 		}(j)
 	}
 	wg.Wait()
+}
+
+// relaxScript drops every quantified assertion (over-approximates the set of models).
+func relaxScript(script string) string {
+	var out []string
+	for _, ln := range strings.Split(script, "\n") {
+		if strings.HasPrefix(ln, "(assert") && (strings.Contains(ln, "(forall ") || strings.Contains(ln, "(exists ")) {
+			continue
+		}
+		out = append(out, ln)
+	}
+	return strings.Join(out, "\n")
 }
